@@ -952,6 +952,27 @@ func sliceAppendedElems(sv ssa.Value) (elems []ssa.Value, known bool) {
 			}
 		case *ssa.Slice:
 			walk(x.X, d+1)
+		case *ssa.Alloc:
+			// a slice literal: the array behind it is filled element by element and only sliced
+			if _, isArr := x.Type().(*types.Pointer).Elem().Underlying().(*types.Array); !isArr {
+				known = false
+				return
+			}
+			for _, ref := range *x.Referrers() {
+				switch y := ref.(type) {
+				case *ssa.Slice, *ssa.DebugRef:
+				case *ssa.IndexAddr:
+					for _, r2 := range *y.Referrers() {
+						if st, isSt := r2.(*ssa.Store); isSt && st.Addr == ssa.Value(y) {
+							elems = append(elems, st.Val)
+						} else if _, isDbg := r2.(*ssa.DebugRef); !isDbg {
+							known = false
+						}
+					}
+				default:
+					known = false
+				}
+			}
 		case *ssa.Call:
 			b, isB := x.Common().Value.(*ssa.Builtin)
 			if !isB || b.Name() != "append" {
@@ -1156,4 +1177,202 @@ func loopLeftEarly(c *km.Ctx, fn *ssa.Function) string {
 		}
 	}
 	return ""
+}
+
+// compiledPattern: v is a *regexp.Regexp; the result is the string value it was compiled from. Accepted sources:
+// regexp.Compile / regexp.MustCompile directly, or a module helper of one string parameter each of whose
+// non-nil results is the compilation of that parameter or the entry a package-level cache (sync.Map or map)
+// holds under that parameter - where every store into that cache, anywhere in the module, files the compilation
+// of a string under that very string.
+func compiledPattern(c *km.Ctx, v ssa.Value, depth int) (ssa.Value, bool) {
+	v = km.Unwrap(v)
+	if ta, ok := v.(*ssa.TypeAssert); ok {
+		v = km.Unwrap(ta.X)
+	}
+	cl, idx := callRes(v)
+	if cl == nil || idx != 0 || depth > 2 {
+		return nil, false
+	}
+	switch km.CalleeFull(cl.Common()) {
+	case "regexp.Compile", "regexp.MustCompile":
+		return km.Unwrap(cl.Common().Args[0]), true
+	}
+	h := km.StaticCallee(cl.Common())
+	if h == nil || h.Pkg == nil || !strings.HasPrefix(h.Pkg.Pkg.Path(), km.ModPath) || len(h.Params) != 1 || len(h.Blocks) == 0 || len(cl.Common().Args) != 1 {
+		return nil, false
+	}
+	par := ssa.Value(h.Params[0])
+	if b, ok := par.Type().Underlying().(*types.Basic); !ok || b.Kind() != types.String {
+		return nil, false
+	}
+	good, nRes := true, 0
+	var caches []*ssa.Global
+	var fromResult func(r ssa.Value, seen map[ssa.Value]bool) bool
+	fromResult = func(r ssa.Value, seen map[ssa.Value]bool) bool {
+		r = km.Unwrap(r)
+		if seen[r] {
+			return true
+		}
+		seen[r] = true
+		if km.IsNilConst(r) {
+			return true
+		}
+		if ph, ok := r.(*ssa.Phi); ok {
+			for _, e := range ph.Edges {
+				if !fromResult(e, seen) {
+					return false
+				}
+			}
+			return true
+		}
+		if ex, ok := r.(*ssa.Extract); ok {
+			if ta, isTA := ex.Tuple.(*ssa.TypeAssert); isTA && ex.Index == 0 {
+				r = ta
+			}
+		}
+		if ta, ok := r.(*ssa.TypeAssert); ok {
+			x := km.Unwrap(ta.X)
+			// sync.Map: Load(key) of a package-level map
+			if lc, li := callRes(x); lc != nil && li == 0 && km.CalleeFull(lc.Common()) == "(*sync.Map).Load" {
+				if g, isG := lc.Common().Args[0].(*ssa.Global); isG && km.Unwrap(lc.Common().Args[1]) == par {
+					caches = append(caches, g)
+					return true
+				}
+			}
+			return false
+		}
+		// plain map: cache[key]
+		lk, isLk := r.(*ssa.Lookup)
+		if ex, ok := r.(*ssa.Extract); ok && ex.Index == 0 {
+			lk, isLk = ex.Tuple.(*ssa.Lookup)
+		}
+		if isLk {
+			if u, isU := lk.X.(*ssa.UnOp); isU && u.Op == token.MUL && km.Unwrap(lk.Index) == par {
+				if g, isG := u.X.(*ssa.Global); isG {
+					caches = append(caches, g)
+					return true
+				}
+			}
+			return false
+		}
+		nRes++
+		p, ok := compiledPattern(c, r, depth+1)
+		return ok && p == par
+	}
+	km.Instrs(h, func(in ssa.Instruction) {
+		if ret, ok := in.(*ssa.Return); ok && len(ret.Results) > 0 {
+			if !fromResult(ret.Results[0], map[ssa.Value]bool{}) {
+				good = false
+			}
+		}
+	})
+	if !good || nRes == 0 {
+		return nil, false
+	}
+	for _, g := range caches {
+		for _, fn := range c.P.AllFuncs {
+			km.Instrs(fn, func(in ssa.Instruction) {
+				for _, op := range in.Operands(nil) {
+					if op == nil || *op != ssa.Value(g) {
+						continue
+					}
+					switch x := in.(type) {
+					case ssa.CallInstruction:
+						switch km.CalleeFull(x.Common()) {
+						case "(*sync.Map).Load", "(*sync.Map).Delete", "(*sync.Map).Range":
+						case "(*sync.Map).Store", "(*sync.Map).LoadOrStore":
+							p, ok := compiledPattern(c, x.Common().Args[2], depth+1)
+							if !ok || p != km.Unwrap(x.Common().Args[1]) {
+								good = false
+							}
+						default:
+							good = false
+						}
+					case *ssa.UnOp:
+						// the map value is loaded: every use of the load is a lookup, a len, or an update that
+						// files a compilation under its own pattern
+						for _, ref := range *x.Referrers() {
+							switch y := ref.(type) {
+							case *ssa.Lookup, *ssa.DebugRef:
+							case *ssa.MapUpdate:
+								p, ok := compiledPattern(c, y.Value, depth+1)
+								if !ok || p != km.Unwrap(y.Key) || y.Map != ssa.Value(x) {
+									good = false
+								}
+							case *ssa.Call:
+								if n := km.CalleeFull(y.Common()); n != "builtin:len" && n != "builtin:delete" {
+									good = false
+								}
+							default:
+								good = false
+							}
+						}
+					case *ssa.Store:
+						// (re)initialised with an empty map
+						if x.Addr != ssa.Value(g) {
+							good = false
+						} else if _, isMk := km.Unwrap(x.Val).(*ssa.MakeMap); !isMk {
+							good = false
+						}
+					default:
+						good = false
+					}
+				}
+			})
+		}
+	}
+	if !good {
+		return nil, false
+	}
+	return km.Unwrap(cl.Common().Args[0]), true
+}
+
+// errorfWraps: the fmt.Errorf call has the given value among its variadic operands.
+func errorfWraps(cl *ssa.Call, target ssa.Value) bool {
+	a := cl.Common().Args
+	if len(a) < 2 {
+		return false
+	}
+	sl, ok := a[len(a)-1].(*ssa.Slice)
+	if !ok {
+		return false
+	}
+	al, ok := sl.X.(*ssa.Alloc)
+	if !ok {
+		return false
+	}
+	for _, ref := range *al.Referrers() {
+		if ia, isIA := ref.(*ssa.IndexAddr); isIA {
+			for _, r2 := range *ia.Referrers() {
+				if st, isSt := r2.(*ssa.Store); isSt && st.Addr == ssa.Value(ia) && km.Unwrap(st.Val) == target {
+					return true
+				}
+			}
+		}
+	}
+	return false
+}
+
+// variadicVals: the operands of a variadic call, read back from the slice the compiler built for them (nil when the
+// slice has another origin or is empty).
+func variadicVals(v ssa.Value) []ssa.Value {
+	sl, ok := v.(*ssa.Slice)
+	if !ok {
+		return nil
+	}
+	al, ok := sl.X.(*ssa.Alloc)
+	if !ok {
+		return nil
+	}
+	var out []ssa.Value
+	for _, ref := range *al.Referrers() {
+		if ia, isIA := ref.(*ssa.IndexAddr); isIA {
+			for _, r2 := range *ia.Referrers() {
+				if st, isSt := r2.(*ssa.Store); isSt && st.Addr == ssa.Value(ia) {
+					out = append(out, km.Unwrap(st.Val))
+				}
+			}
+		}
+	}
+	return out
 }
